@@ -88,23 +88,32 @@ def latin1Enc (s : Text) : Bytes := s.map fun c => UInt8.ofNat c.toNat
 def asciiDec (b : Bytes) : Option Text :=
   if b.all (· < 0x80) then some (latin1Dec b) else none
 
-/-- UTF-16 code units → text; `be` selects the byte order.  Lone or reversed surrogates and an odd
-    trailing byte are errors. -/
-def utf16Units (be : Bool) : Bytes → Option Text
+/-- Bytes → 16-bit code units; `be` selects the byte order. An odd trailing byte is an error
+    ("truncated data"). -/
+def codeUnits (be : Bool) : Bytes → Option (List Nat)
   | [] => some []
   | [_] => none
   | a :: b :: rest =>
-    let u : Nat := if be then a.toNat * 256 + b.toNat else b.toNat * 256 + a.toNat
-    if 0xD800 ≤ u ∧ u < 0xDC00 then
-      match rest with
-      | c :: d :: rest' =>
-        let w : Nat := if be then c.toNat * 256 + d.toNat else d.toNat * 256 + c.toNat
-        if 0xDC00 ≤ w ∧ w < 0xE000 then
-          (utf16Units be rest').map (Char.ofNat (0x10000 + (u - 0xD800) * 1024 + (w - 0xDC00)) :: ·)
-        else none
-      | _ => none
-    else if 0xDC00 ≤ u ∧ u < 0xE000 then none
-    else (utf16Units be rest).map (Char.ofNat u :: ·)
+    (codeUnits be rest).map ((if be then a.toNat * 256 + b.toNat else b.toNat * 256 + a.toNat) :: ·)
+
+def isHiSurr (u : Nat) : Bool := 0xD800 ≤ u ∧ u < 0xDC00
+
+def isLoSurr (u : Nat) : Bool := 0xDC00 ≤ u ∧ u < 0xE000
+
+/-- UTF-16 code units → text. Lone or reversed surrogates are errors. -/
+def decodeUnits : List Nat → Option Text
+  | [] => some []
+  | [u] => if isHiSurr u ∨ isLoSurr u then none else some [Char.ofNat u]
+  | u :: w :: rest =>
+    if isHiSurr u then
+      if isLoSurr w then
+        (decodeUnits rest).map (Char.ofNat (0x10000 + (u - 0xD800) * 1024 + (w - 0xDC00)) :: ·)
+      else none
+    else if isLoSurr u then none
+    else (decodeUnits (w :: rest)).map (Char.ofNat u :: ·)
+
+/-- `bytes.decode('utf-16-le' / 'utf-16-be')`. -/
+def utf16Units (be : Bool) (b : Bytes) : Option Text := (codeUnits be b).bind decodeUnits
 
 /-- `bytes.decode('utf-16')`: a byte-order mark selects the order and is consumed, otherwise native
     (little-endian) order. -/
